@@ -1,6 +1,8 @@
 import LyModel.Generated.FnUtf8
 import LyModel.Generated.FnHash
 import LyModel.Generated.FnIff
+import LyModel.Generated.FnHt
+import LyModel.Generated.FnLyb
 /-! Driver ops of component `fn`: the definitions GENERATED from the C source by `tools/c2lean.py`, executed on the
 request lines that `harness/wb_fn.c` feeds to the real functions (validation of the translator). -/
 namespace LyModel.Fn.Drv
@@ -50,6 +52,28 @@ def handle (op : String) (args : List String) : String :=
     match Hex.dec h, o.toNat?, u64? p with
     | some s, some o, some p => s!"ok {Hex.enc (Fn.iff_setop s (UInt8.ofNat o) p).list}"
     | _, _, _ => "err BadArg"
+  | "fixedsize", [n] =>
+    match u32? n with
+    | some n => s!"ok {Fn.lyht_get_fixed_size n}"
+    | none => "err BadArg"
+  | "grow", [u, z, r] =>
+    match u32? u, u32? z, r.toNat? with
+    | some u, some z, some r =>
+      let x := Fn.lyht_insert__grow u z (UInt16.ofNat r)
+      s!"ok {x.ret} {x.resize}"
+    | _, _, _ => "err BadArg"
+  | "shrink", [u, z] =>
+    match u32? u, u32? z with
+    | some u, some z => s!"ok {Fn.lyht_remove__shrink u z}"
+    | _, _ => "err BadArg"
+  | "lybmask", [h, c] =>
+    match u32? h, c.toNat? with
+    | some h, some c => s!"ok {Fn.lyb_generate_hash__mask h (UInt8.ofNat c)}"
+    | _, _ => "err BadArg"
+  | "extlen", [c, l] =>
+    match c.toNat?, u64? l with
+    | some c, some l => s!"ok {Fn.lyb_generate_hash__extlen (UInt8.ofNat c) l}"
+    | _, _ => "err BadArg"
   | _, _ => "err BadOp"
 
 end LyModel.Fn.Drv
